@@ -299,6 +299,27 @@ impl Monitor for M {
                 .set("with_storage_header", wsh)
                 .set("what", what)
         };
+        // history: collectors that were used and then thrown away without collect() — after a stream that
+        // was read to the end, and after one that failed in the middle — must leave nothing behind that a
+        // later, fresh collector could pick up
+        if ctx.rng.chance(1, 4) && !bytes.is_empty() {
+            let damaged = ctx.rng.chance(1, 2);
+            let mut other = bytes.clone();
+            if damaged {
+                // a declared length below the header size somewhere behind the first message: an error mid-stream
+                let at = bounds[bounds.len() / 2].min(other.len().saturating_sub(4)) + if wsh { 16 } else { 0 };
+                if at + 4 <= other.len() {
+                    other[at + 2] = 0;
+                    other[at + 3] = 1;
+                }
+            }
+            let (src, _h) = SharedSource::new(other, crate::iosched::Script::whole());
+            let mut reader = DltMessageReader::with_capacity(65551, 65551, src, wsh);
+            let mut discarded = StatisticInfoCollector::default();
+            let _ = guarded(|| collect_statistics(&mut reader, &mut discarded));
+            drop(discarded);
+            ctx.obs(if damaged { "history.collector_discarded_after_error" } else { "history.collector_discarded_unused_result" });
+        }
         let exp = tally(&msgs);
         let hit: usize = (0..8).filter(|&b| exp.ecu.values().any(|v| v[b] > 0)).count();
         let (visits, info) = match collect(&bytes, wsh, ctx, true) {
@@ -456,7 +477,7 @@ impl Monitor for M {
 
     fn describe(&self, ctx: &Ctx) -> J {
         super::describe(
-            "streams of 0-400 reference-encoded messages (10 % empty, 10 % long), ids from pools of 1/2/3/8/12 (collisions, incl. the empty id, the literal 'NONE', ids differing only in trailing blanks, the storage-header pattern) or unconstrained, 1 in 8 messages with a dialect id field (non-UTF-8 bytes or an early NUL: counted under the clean prefix), 1 in 60 streams with a message of one of the 16 largest declarable lengths, 1 in 6 readers built with DltMessageReader::new, 2/3 of the non-control messages forced to log type over all 16 level codes, 1/4 of the streams all-verbose, both storage modes, fed to collect_statistics through a scripted source with a random fragmentation family; a wrapping collector logs every visit. Each stream is then split at 0-7 random message boundaries (empty parts allowed) and the parts' statistics merged as left fold, right fold, balanced tree and random permutation/association. distinct = (storage mode, id-pool size, buckets hit, number of parts, merge shape, stream length bucket); non-trivial = non-empty stream",
+            "streams of 0-400 reference-encoded messages (10 % empty, 10 % long), ids from pools of 1/2/3/8/12 (collisions, incl. the empty id, the literal 'NONE', ids differing only in trailing blanks, the storage-header pattern) or unconstrained, 1 in 8 messages with a dialect id field (non-UTF-8 bytes or an early NUL: counted under the clean prefix), 1 in 60 streams with a message of one of the 16 largest declarable lengths, 1 in 6 readers built with DltMessageReader::new, 2/3 of the non-control messages forced to log type over all 16 level codes, 1/4 of the streams all-verbose, both storage modes, fed to collect_statistics through a scripted source with a random fragmentation family; a wrapping collector logs every visit; before 1 in 4 streams a collector is fed the stream (intact or damaged mid-way) and dropped without collect(). Each stream is then split at 0-7 random message boundaries (empty parts allowed) and the parts' statistics merged as left fold, right fold, balanced tree and random permutation/association. distinct = (storage mode, id-pool size, buckets hit, number of parts, merge shape, stream length bucket); non-trivial = non-empty stream",
             &["the id a message is counted under is the clean prefix of its 4-byte field (C19 rule): bytes before the first NUL, cut at the first invalid UTF-8 sequence", "vector order in the result is unspecified and not compared; tables are compared as maps, a duplicated id is a violation", "contained_non_verbose is true iff some message lacks (extended header and verbose flag)"],
             &[
                 ("visits.ok", super::scaled(ctx, 10000)),
